@@ -288,7 +288,9 @@ fn run_scenario(
             slot.scenario = sc.id;
             slot.input = input.clone();
           }
+          crate::inflight::begin(shard, sc.id, &input);
           let r = exec_case(prop, sc.id, &input, false);
+          crate::inflight::end(shard);
           slots[shard].lock().unwrap().started = None;
           if let Some(e) = r.harness_error {
             let mut he = shared.harness_error.lock().unwrap();
@@ -421,6 +423,31 @@ pub fn read_replay(path: &Path) -> Result<(String, u32, Vec<u8>, String), String
   Ok((prop, scenario, bytes, sig))
 }
 
+/// `--raw <scenario> <file>`: run one case from a raw input file (used by the supervisor)
+pub fn raw(prop: &Property, scenario: u32, path: &Path) -> i32 {
+  for e in std::env::var("VERIF_EXCL").unwrap_or_default().split(',') {
+    if !e.is_empty() {
+      hooks::exclusion_enable(e);
+    }
+  }
+  let Ok(bytes) = fs::read(path) else {
+    eprintln!("cannot read {}", path.display());
+    return 2;
+  };
+  let r = exec_case(prop, scenario, &bytes, true);
+  if let Some(e) = r.harness_error {
+    eprintln!("HARNESS-ERROR: {e}");
+    return 2;
+  }
+  match signature(&r.outcome) {
+    Some(sig) => {
+      println!("signature: {sig}");
+      1
+    }
+    None => 0,
+  }
+}
+
 pub fn replay(prop: &Property, cfg: &RunConfig, path: &Path) -> i32 {
   let (pid, scenario, bytes, _sig) = match read_replay(path) {
     Ok(x) => x,
@@ -503,6 +530,20 @@ pub fn run_property(prop: &Property, cfg: &RunConfig) -> i32 {
   }
 
   hooks::exclusion_clear();
+  for e in std::env::var("VERIF_EXCL").unwrap_or_default().split(',') {
+    if !e.is_empty() {
+      hooks::exclusion_enable(e);
+    }
+  }
+  if let Ok(p) = std::env::var("VERIF_KNOWN_PRINTED") {
+    let mut kp = shared.known_printed.lock().unwrap();
+    for s in p.split('\x1f') {
+      if !s.is_empty() {
+        kp.insert(s.to_string());
+      }
+    }
+  }
+  let abort_prefix = format!("{}.abort|", prop.id.to_lowercase());
   let mut known_status: Vec<Value> = Vec::new();
   let mut active_known: Vec<Known> = Vec::new();
   let mut regress_ran = 0u64;
@@ -511,7 +552,11 @@ pub fn run_property(prop: &Property, cfg: &RunConfig) -> i32 {
   for k in &all_known {
     let mut reproduced = false;
     let mut note = String::new();
-    if let Some(rp) = &k.replay {
+    if k.sig.starts_with(&abort_prefix) {
+      // process-killing finding: reproduced (or not) by the supervisor in its own process
+      reproduced = shared.known_printed.lock().unwrap().contains(&k.sig);
+      note = "process-killing input, replayed by the supervisor".to_string();
+    } else if let Some(rp) = &k.replay {
       match read_replay(&cfg.root.join(rp)) {
         Ok((_, scenario, bytes, _)) => {
           let r = exec_case(prop, scenario, &bytes, true);
@@ -560,6 +605,13 @@ pub fn run_property(prop: &Property, cfg: &RunConfig) -> i32 {
     for f in files {
       if f.extension().and_then(|e| e.to_str()) != Some("json") {
         continue;
+      }
+      if f
+        .file_name()
+        .and_then(|n| n.to_str())
+        .map_or(false, |n| n.starts_with(abort_prefix.trim_end_matches('|')))
+      {
+        continue; // process-killing inputs are replayed by the supervisor
       }
       let Ok((pid, scenario, bytes, _)) = read_replay(&f) else {
         continue;
